@@ -247,7 +247,8 @@ theorem mass_bridge_label (env : Pept.Env) (mono : Bool) (dl : Mod â†’ Option â„
     rfl
   have hl' : AbsMass.parseIsotopeMods (envFor env t mono ch 0 0).knownLabel (i0 :: is) = .ok lm := hparseC
   unfold massLabel compMassOf
-  simp only [hcond, hbad, hpl.isotope, hl', Bool.false_eq_true, if_false]
+  have hrule := absentRuleBad_static_none (envFor env t mono ch 0 0) b hpl.static
+  simp only [hcond, hbad, hrule, Bool.or_self, hpl.isotope, hl', Bool.false_eq_true, if_false]
   have huse : (envFor env t mono ch 0 0).useIsotopeOnMods = false := rfl
   simp only [huse, Bool.false_eq_true, if_false, chemMass_dropZeros, chemMass_compAdd, AbsMass.chemMass]
   have hem : (envFor env t mono ch 0 0).em = emOf mono := rfl
